@@ -38,7 +38,7 @@ theorem name_ecdsa (k : KeyKind) : k.name = "ecdsa" ↔ k = .ecdsa := by cases k
 /-- the (EC)DSA branch of `verifySignature`, for a key of the matching kind -/
 theorem pair_branch (P : Prims) (key : Key) (h : Nat) (d sig : Bytes) (a : Nat) (ha : a = 2 ∨ a = 3) :
     verifyPair P key h d a true sig = Outcome.ok ↔
-    key.isNil = false ∧ ∃ r s extra rest, sig = derSigX r s extra ++ rest ∧ (derInt r ++ derInt s ++ extra).length < 2^31 ∧
+    key.primPanics = false ∧ ∃ r s extra rest, sig = derSigX r s extra ++ rest ∧ (derInt r ++ derInt s ++ extra).length < 2^31 ∧
       (Gen.sigExactDER a = true → extra = []) ∧ 0 < r ∧ 0 < s ∧ P.prim key h d (.pair r s) = true := by
   unfold verifyPair
   constructor
@@ -51,7 +51,7 @@ theorem pair_branch (P : Prims) (key : Key) (h : Nat) (d sig : Bytes) (a : Nat) 
       · simp [hr] at hok
       by_cases hx : (Gen.sigExactDER a && !p.extra.isEmpty) = true
       · simp [hr, hx] at hok
-      by_cases hn : key.isNil = true
+      by_cases hn : key.primPanics = true
       · simp [hr, hx, hn] at hok
       by_cases hv : P.prim key h d (.pair p.r p.s) = true
       · have hpos := (not_congr (reject_iff a p.r p.s ha)).mp hr
@@ -75,23 +75,42 @@ theorem pair_branch (P : Prims) (key : Key) (h : Nat) (d sig : Bytes) (a : Nat) 
 
 
 /-- a panic can only come from a nil key pointer of the declared type -/
-theorem verifySignature_no_panic (P : Prims) (key : Key) (data : Bytes) (ds : DigitallySigned) (hn : key.isNil = false) :
+theorem verifySignature_no_panic (P : Prims) (key : Key) (data : Bytes) (ds : DigitallySigned) (hn : key.primPanics = false) :
     verifySignature P key data ds ≠ .panic := by
   unfold verifySignature verifyPair
   dsimp only
   repeat' split
   all_goals simp_all
 
-theorem verifySCT_no_panic (P : Prims) (key : Key) (sct : SCT) (e : Entry) (hn : key.isNil = false) :
-    verifySCT P key sct e ≠ .panic := by
+/-- `VerifySCTSignature` with the regenerated shape flag discharged -/
+theorem verifySCT_def (P : Prims) (key : Key) (sct : SCT) (e : Entry) :
+    verifySCT P key sct e =
+      (match sctSigInput sct.version sct.timestamp e sct.extensions with
+       | none => Outcome.err
+       | some msg => verifySignature P key msg sct.sig) := by
   unfold verifySCT
+  simp only [show Gen.sctVerifySerializesThenVerifies = true from rfl, Bool.not_true, Bool.false_eq_true, if_false]
+  cases sctSigInput sct.version sct.timestamp e sct.extensions <;> rfl
+
+theorem verifySTH_def (P : Prims) (key : Key) (sth : STH) :
+    verifySTH P key sth =
+      (match sthSigInput sth.version sth.timestamp sth.treeSize sth.root with
+       | none => Outcome.err
+       | some msg => verifySignature P key msg sth.sig) := by
+  unfold verifySTH
+  simp only [show Gen.sthVerifySerializesThenVerifies = true from rfl, Bool.not_true, Bool.false_eq_true, if_false]
+  cases sthSigInput sth.version sth.timestamp sth.treeSize sth.root <;> rfl
+
+theorem verifySCT_no_panic (P : Prims) (key : Key) (sct : SCT) (e : Entry) (hn : key.primPanics = false) :
+    verifySCT P key sct e ≠ .panic := by
+  rw [verifySCT_def]
   split
   · simp
   · exact verifySignature_no_panic P key _ _ hn
 
-theorem verifySTH_no_panic (P : Prims) (key : Key) (sth : STH) (hn : key.isNil = false) :
+theorem verifySTH_no_panic (P : Prims) (key : Key) (sth : STH) (hn : key.primPanics = false) :
     verifySTH P key sth ≠ .panic := by
-  unfold verifySTH
+  rw [verifySTH_def]
   split
   · simp
   · exact verifySignature_no_panic P key _ _ hn
